@@ -6,6 +6,7 @@ import (
 	"strconv"
 	"testing"
 	"testing/synctest"
+	"time"
 
 	"github.com/onheap/eval"
 )
@@ -81,6 +82,8 @@ type Bubble struct {
 	AfterStep func(b *Bubble) *Violation
 	// OnRecv lets the property look at an event right when it is received.
 	OnRecv func(b *Bubble, r *Recv)
+
+	sleeping int // tasks currently inside Sleep
 
 	Stuck     bool
 	StuckInfo string
@@ -185,6 +188,14 @@ func eventStr(ev eval.Event) string {
 		return fmt.Sprintf("LOOP idx=%d %v stack=%s", d.CurtIdx, d.NodeValue, ValStr(st))
 	}
 	return fmt.Sprintf("%v", ev)
+}
+
+// Sleep lets the running task spend d of simulated time (a slow callback). The
+// scheduler advances the bubble's clock; no other task runs meanwhile.
+func (b *Bubble) Sleep(d time.Duration) {
+	b.sleeping++
+	time.Sleep(d)
+	b.sleeping--
 }
 
 // enabled lists the actions possible in the current quiescent state.
@@ -370,6 +381,13 @@ func (b *Bubble) Run(t *testing.T) {
 		draining := false
 		for {
 			synctest.Wait()
+			for b.sleeping > 0 {
+				// a task is inside a slow call: nothing else is runnable, so the
+				// simulated clock jumps to the end of its sleep
+				b.St.Faults["slow_call"]++
+				time.Sleep(time.Second)
+				synctest.Wait()
+			}
 			if b.AfterStep != nil && b.Viol == nil {
 				if v := b.AfterStep(b); v != nil {
 					b.Viol = v
